@@ -139,7 +139,28 @@ def task(W, payload):
         req = [{"op": "request", "name": "tot_" + n, "kind": "comp", "comps": [n], "save": True} for n in names[:2]]
         fl = [op for op in ops if op["op"] == "flow" and op["kind"] not in ("universal_death",)]
         req += [{"op": "request", "name": "fl_" + op["name"], "kind": "flow", "flow": op["name"], "raw": True, "save": True} for op in fl[:2]]
-        J0, _ = build(ops + req); J1, _ = build(ops + [new] + req)
+        # per-stratum outputs of the stratified model and their sums over the new strata (which must reproduce the unstratified outputs)
+        per = []
+        st_names = sorted(new["strata"], key=int) if new["kind"] == "age" else list(new["strata"])
+        for n in names[:2]:
+            if n in new["comps"]:
+                parts = []
+                for st in st_names:
+                    per.append({"op": "request", "name": f"tot_{n}__{st}", "kind": "comp", "comps": [n], "strata": [[new["name"], st]], "save": False}); parts.append(f"tot_{n}__{st}")
+                per.append({"op": "request", "name": "sum_tot_" + n, "kind": "agg", "sources": parts, "save": True})
+        for op in fl[:2]:
+            end = "src_strata" if op.get("src") in new["comps"] else ("dst_strata" if op.get("dst") in new["comps"] else None)
+            if end is None or new["kind"] == "age":
+                continue      # (an age stratification adds ageing flows and sends births to the first age group only)
+            parts = []
+            for st in st_names:
+                per.append(dict({"op": "request", "name": f"fl_{op['name']}__{st}", "kind": "flow", "flow": op["name"], "raw": True, "save": False}, **{end: [[new["name"], st]]}))
+                parts.append(f"fl_{op['name']}__{st}")
+            per.append({"op": "request", "name": "sum_fl_" + op["name"], "kind": "agg", "sources": parts, "save": True})
+        J0, _ = build(ops + req); J1, _ = build(ops + [new] + req + per)
+        if J1 is None:
+            J1, _ = build(ops + [new] + req); per = []
+            bump(out, "per_stratum_requests_rejected")
         if J0 is not None and J1 is not None:
             for solver in ("euler", "rk4", "odeint"):
                 kw = {"rtol": "7/500000000", "atol": "7/500000000"} if solver == "odeint" else {}
@@ -164,6 +185,11 @@ def task(W, payload):
                     if not np.allclose(d0[k], d1[k], rtol=0, atol=max(tol, 1e-9 * max(1.0, np.abs(d0[k]).max()))):
                         fail(out, f"derived output {k} changes under an unadjusted stratification ({solver})", "c03", payload, program=ops, extra=new, params=params,
                              unstratified=list(map(float, d0[k])), stratified=list(map(float, d1[k])))
+                for k in d1:
+                    if k.startswith("sum_") and k[4:] in d0:
+                        if not np.allclose(d0[k[4:]], d1[k], rtol=0, atol=max(tol, 1e-9 * max(1.0, np.abs(d0[k[4:]]).max()))):
+                            fail(out, f"per-stratum derived outputs summed over the new strata ({k}) do not reproduce the unstratified output ({solver})", "c03", payload,
+                                 program=ops, extra=new, params=params, unstratified=list(map(float, d0[k[4:]])), summed=list(map(float, d1[k])))
                 if nontrivial: out["cases"].append(h + ":traj:" + solver)
     if payload["index"] < 5:
         out["sample"] = {"variant": variant, "extra_stratification": new, "base_program": ops[:6]}
